@@ -87,6 +87,18 @@ META = {
         "note": TIE + " Query purity is decided by correspondence/search, not by a theorem.",
         "technique": "Lean 4 proof of clear = init and mirrored read paths + correspondence for query purity",
     },
+    "C08": {
+        "text": "Counting Bloom, for all geometries incl. coinciding positions: removeAlt after addAlt restores cells and counter exactly below saturation (C08_cbf_undo); every cell is Σ cnt(key)·mult(key,j) over any Legit/Unsat history, hence check ≥ outstanding count (C08_cbf_cells, C08_cbf_lower); removing an absent key changes nothing and returns 0 (C08_cbf_absent). Counting cuckoo, ∀ G ∀ oracles: check = stored count; add of a present fingerprint increments exactly that bin; remove decrements / drops; absent remove is a no-op; and for ALL histories in which no call raised — through kick chains and automatic expansions — check = outstanding additions of the fingerprint (C08_ccf_exact_with_kicks). Tie: cbf and cuckoo(counting) suites; search with every oracle script on tiny tables.",
+        "design_ref": "§4 C08",
+        "note": TIE + " Below saturation and for removals not exceeding the outstanding count, as the property states.",
+        "technique": "Lean 4 proof (closed forms of the store loops, invariants over histories, ∀ oracle) + correspondence",
+    },
+    "C17": {
+        "text": "HeavyHitters, for all w,d,num ≥ 1, any strategy, any add history: table size = min(num, distinct keys), every tracked value is the key's most recent returned estimate, no untracked key's last estimate exceeds any tracked one, with the needed monotonicity of count-min estimates PROVED (C17_hh_size/tracked/untracked/monotone). StreamThreshold, no hypotheses at all: table.get? k = some v ↔ lastEst k = some v ∧ T ≤ v over any add/remove history incl. calls that raise (C17_st_table, C17_st_never_missing, C17_st_dropped). Tie: cms suite in hh/st modes (ordered table after every step).",
+        "design_ref": "§4 C17",
+        "note": TIE + " 'true count reaches the threshold ⇒ tracked' is proved for add-only histories (with illegitimate removals the estimate itself can be below the true count).",
+        "technique": "Lean 4 proof (table invariants over histories, abstracted from the sketch then linked to it) + correspondence",
+    },
 }
 
 ALL = ["C%02d" % i for i in range(1, 21)]
